@@ -222,6 +222,28 @@ func runProg(c *router.Context, prog []opT, res *runRes, hk hook, nw []int) {
 		case "Sc":
 			http.ServeContent(w, c.Request, op.S, time.Time{}, bytes.NewReader(op.Data))
 			pad(0, 0, 0)
+		case "Dr":
+			cs := make([][]byte, len(op.Chunks))
+			copy(cs, op.Chunks)
+			n := int64(-1)
+			if op.Key == "len" {
+				n = 0
+				for _, ch := range cs {
+					n += int64(len(ch))
+				}
+			}
+			c.DataFromReader(op.Code, n, op.S, &scriptReader{chunks: cs}, nil) //nolint:errcheck
+			pad(0, 0, 0)
+		case "Sf":
+			if op.Key == "fast" {
+				c.Stringf(op.Code, "<"+"%s"+">", op.S) //nolint:errcheck // up to three writes
+			} else {
+				c.Stringf(op.Code, "%s=%d", op.S, op.Code) //nolint:errcheck // fmt.Fprintf path
+			}
+			pad(0, 0, 0)
+		case "Ym":
+			c.YAML(op.Code, map[string]string{"k": op.S}) //nolint:errcheck
+			pad(0, 0, 0)
 		case "Pn":
 			if hk != nil {
 				hk.end(op)
@@ -325,7 +347,7 @@ func (f *fake) Flush() {
 	}
 }
 func (f *fake) begin(op *opT) {
-	f.group = op.K == "C" || op.K == "Sc"
+	f.group = op.K == "C" || op.K == "Sc" || op.K == "Dr"
 	if op.K == "C" {
 		// the copy primitive is the scripted chunk list itself (the copy loop is part of the model)
 		f.sync()
